@@ -66,5 +66,26 @@ Unsupported400 == Complete =>
 (* what goes over the wire, and what the client makes of it *)
 Status == IF O = "err400" THEN 400 ELSE IF nres = 0 THEN 404 ELSE 200
 ClientSees == IF O = "json" /\ nres > 0 THEN nres ELSE 0        \* number of results Client.Find returns (no error for 404)
+(* ---- the client against whatever a server answers ----
+   status x body: the whole document (with n results), the document cut part-way (the announced Content-Length not
+   delivered, or a chunked response aborted), an empty body, bytes that are not JSON, and the empty JSON object.
+   Find reports "not found" (an empty response, no error) for status 404 and for a whole document without results -- and
+   for nothing else: a failed or cut-off response is an error, never an empty answer.                                 *)
+Bodies == {"doc", "cut-short", "cut-chunked", "empty", "garbage", "empty-object"}
+Answers == [status : {200, 404, 400, 500}, body : Bodies, n : 0..MaxResults]
+ClientFind(a) ==
+  IF a.status = 404 THEN [err |-> FALSE, n |-> 0]
+  ELSE IF a.status # 200 THEN [err |-> TRUE, n |-> 0]
+  ELSE CASE a.body = "doc" -> [err |-> FALSE, n |-> a.n]
+         [] a.body = "empty-object" -> [err |-> FALSE, n |-> 0]
+         [] OTHER -> [err |-> TRUE, n |-> 0]                        \* ReadAll fails, or the bytes do not parse
+Whole(a) == a.body \in {"doc", "empty-object"}
+ASSUME \A a \in Answers :
+         LET o == ClientFind(a) IN
+         /\ (~o.err /\ o.n = 0) => (a.status = 404 \/ (a.status = 200 /\ Whole(a) /\ (a.body = "empty-object" \/ a.n = 0)))
+         /\ (a.status = 200 /\ a.body = "doc") => (~o.err /\ o.n = a.n)
+         /\ (a.status = 200 /\ ~Whole(a)) => o.err
+ASSUME EXPORT => \A a \in Answers : Emit("c19_client.ndjson", [a |-> a, out |-> ClientFind(a)])
+
 ExportCase == (Complete /\ EXPORT) => Emit("c19_cases.ndjson", [hs |-> hs, prefer |-> prefer, pk |-> pk, nres |-> nres, out |-> O, status |-> Status])
 =============================================================================
